@@ -307,7 +307,80 @@ class Mirror(Obligation):
                 cx.eq('wave %d: mirrored %s at the mirrored wave position' % (i, nm), b, s_ * a)
 
 
-def obligations(prefix, tier, patterns=('RCR', 'RCS', 'SCR', 'SCS'), mirror=False):
+class Boost(Mirror):
+    """Galilean invariance of the general-EOS driver: both velocities shifted by w, the points by w t"""
+
+    def __init__(self, gl, gr, pattern, case, prefix, n=G.NPTS, generic=True):
+        Mirror.__init__(self, gl, gr, pattern, case, prefix, n=n, generic=generic)
+        self.id = self.id.replace('.geos.mirror.', '.geos.boost.')
+        self.extra_shim = G.shim_extra(pattern, case, second='same')
+        self.budget_s = 240
+        self.hard_timeout_s = 420
+        self.bounds = self.bounds.replace('problem and mirrored problem', 'problem and the problem with both velocities shifted by a symbolic w')
+
+    def build(self, mk):
+        prob, st, xd0, t = G.make(mk, self.gl, self.gr, n=self.n)
+        u = H.mod(G.UM)
+        w = mk('w')
+        q = []
+        for side, sgn in (('L', -1), ('R', 1)):
+            idx = 0 if side == 'L' else 2
+            if self.pattern[idx] != 'R' or self.case[idx // 2] != self.n - 2:
+                continue
+            ps, rs, us = G.tables(prob, side)
+            g = prob.gl if side == 'L' else prob.gr
+            k = self.n - 1
+            c = u.sound_speed(ps[k], rs[k], g, prob)
+            q.append(xd0 + t * ((us[k] - c) if sgn < 0 else (us[k] + c)))
+        xs = H.arr(q) if q else np.array([], dtype=float)
+        prob.driver(xs)
+        if prob.soln_type != self.pattern:
+            from symx.engine import PathAbort
+            if Mode.symbolic(mk):
+                raise PathAbort()
+            return {'_other_pattern': True}
+        st2 = dict(st, ul=st['ul'] + w, ur=st['ur'] + w)
+        prob2, _, _, _ = G.make(mk, self.gl, self.gr, n=self.n, state=st2)
+        xs2 = H.arr([x + w * t for x in q]) if q else np.array([], dtype=float)
+        prob2.driver(xs2)
+        out = {'pattern2': prob2.soln_type, 'n1': len(prob.Xregs), 'n2': len(prob2.Xregs), 'nq': len(q), 'w': w, 't': t}
+        for j in range(len(q)):
+            out['a_q%d' % j] = G.value_at(prob, xs[j])
+            out['b_q%d' % j] = G.value_at(prob2, xs2[j])
+        for i in range(min(len(prob.Xregs), len(prob2.Xregs))):
+            out['a_X%d' % i] = G.value_at(prob, prob.Xregs[i])
+            out['b_X%d' % i] = G.value_at(prob2, prob2.Xregs[i])
+            out['Xa%d' % i] = prob.Xregs[i]
+            out['Xb%d' % i] = prob2.Xregs[i]
+        if Mode.symbolic(mk):
+            from symx.engine import current
+            res = current().notes.get('second_residual', [])
+            out['_residual'] = res[0] if res else None
+        return out
+
+    def claims(self, cx):
+        if '_other_pattern' in cx:
+            return
+        pat = self.pattern
+        w, t = cx['w'], cx['t']
+        if '_residual' in cx and cx['_residual'] is not None:
+            cx.eq("the boosted problem's star-pressure function vanishes at the star pressure of the problem", cx['_residual'], 0)
+        cx.true('the boosted problem has the same wave pattern', cx['pattern2'] == pat)
+        cx.true('same number of waves', cx['n1'] == cx['n2'])
+        names = ('pressure', 'density', 'velocity', 'energy')
+        for j in range(cx['nq']):
+            for nm, a, b in zip(names, cx['a_q%d' % j], cx['b_q%d' % j]):
+                cx.eq('fan node %d: %s at the translated point' % (j, nm), b, a + w if nm == 'velocity' else a)
+        ic = 2 if pat[0] == 'R' else 1
+        for i in range(cx['n1']):
+            if ('Xa%d' % i) not in cx:
+                continue
+            cx.eq('wave %d: position translated by w t' % i, cx['Xb%d' % i], cx['Xa%d' % i] + w * t)
+            for nm, a, b in zip(names, cx['a_X%d' % i], cx['b_X%d' % i]):
+                cx.eq('wave %d: %s at the translated wave position' % (i, nm), b, a + w if nm == 'velocity' else a)
+
+
+def obligations(prefix, tier, patterns=('RCR', 'RCS', 'SCR', 'SCS'), mirror=False, boost=False):
     obs = []
     pairs = [(Fraction(7, 5), Fraction(5, 3))] if tier != 'thorough' else \
         [(Fraction(7, 5), Fraction(5, 3)), (Fraction(5, 3), Fraction(7, 5)), (Fraction(7, 5), Fraction(7, 5)), (Fraction(2), Fraction(3))]
@@ -327,7 +400,9 @@ def obligations(prefix, tier, patterns=('RCR', 'RCS', 'SCR', 'SCS'), mirror=Fals
                 for ir in range(nr):
                     if tier == 'thorough' and not mirror and (gl, gr) == pairs[0] and 'R' in pat:
                         obs.append(Assembly(gl, gr, pat, (il, ir), prefix, generic=True, problem='JWL'))
-                    if mirror:
+                    if boost:
+                        obs.append(Boost(gl, gr, pat, (il, ir), prefix, generic=(tier != 'thorough')))
+                    elif mirror:
                         obs.append(Mirror(gl, gr, pat, (il, ir), prefix, generic=(tier != 'thorough')))
                     else:
                         obs.append(Assembly(gl, gr, pat, (il, ir), prefix, generic=(tier != 'thorough')))
